@@ -488,7 +488,9 @@ def gen_borehole_config(
 
     for _ in range(num_rows + 1):
         # Row Defined by two points
-        if row_space[1] == 0:
+        # (vertical rows: sin(pi) is 1.2e-16, not 0, so a rotation of -90 degrees must not be sent down the
+        # sloped-row branch with a slope of 1e16 - the intersections lose all precision and distribute never ends)
+        if abs(row_space[1]) <= 1.0e-9 * abs(s):
             row = [
                 row_point[0],
                 row_point[1],
